@@ -13,6 +13,8 @@ class TitlesHarness(h_lib.LibHarness):
     real_functions = ('GraphInline::normalize', 'Line::normalize', 'GraphNodePointer::node', 'Projector::project_node (Reference arm)',
                       'Key::to_rel_link_url/from_rel_link_url/from_file_name/parent', 'Graph::extract_ref_text/get_key_title', 'is_ref_url',
                       'LinkType::to_ref_type', 'ReferenceType::to_link_type', 'DocumentInline::to_graph_inline', 'SectionsBuilder::block (reference arm)')
+    tv_every = 7
+    tv_phase = 0
     required_covers = ('title-refreshed', 'title-kept-no-heading', 'title-kept-missing', 'wiki-kept', 'external-kept', 'sub-directory', 'nested-inline')
 
     def __init__(self, prog, tier='quick'):
@@ -63,8 +65,37 @@ class TitlesHarness(h_lib.LibHarness):
         info = {'input': ctx.input_desc, 'output_link': out}
         self.judge(ctx.input_desc, out, ctx.law, info, ctx)
         if self.tv_pick(ctx.trace):
-            pass
+            script = self.native_script(ctx.input_desc)
+            ctx.tv = {'script': script, 'expect': None, 'post': list(out) if out else None}
         return info
+
+    def native_script(self, d):
+        src = d['linking_note']
+        md_link = {'Regular': '[ORIG](%s)' % d['url'], 'WikiLink': '[[%s]]' % d['url'], 'WikiLinkPiped': '[[%s|ORIG]]' % d['url']}[d['link_type']]
+        body = {'block': md_link, 'inline': 'see ' + md_link, 'emph': 'see *' + md_link + '*'}[d['place']]
+        state = {}
+        for n, title in NOTES.items():
+            if n == src:
+                state[n + '.md'] = '# %s\n\n%s\n' % (title, body)
+            elif d['headed'].get(n, True):
+                state[n + '.md'] = '# %s\n\np\n' % title
+            else:
+                state[n + '.md'] = 'p\n'
+        return [{'op': 'import', 'state': state}, {'op': 'project', 'key': src}, {'op': 'to_markdown', 'key': src}]
+
+    def tv_compare(self, tv, native_out):
+        if any(isinstance(x, dict) and 'panic' in x for x in native_out):
+            return False
+        out = find_link(native_out[1])
+        exp = tv['post']
+        if out is None or exp is None:
+            return out is None and exp is None
+        out = list(out)
+        # a bare wiki link's text is its url in the parsed document; autolinks (<HTTP://..>) have the url as text
+        if out[:3] == exp[:3] and (out[3] == exp[3] or exp[2] == 'WikiLink'):
+            return True
+        tv['diff'] = {'executor': exp, 'native': out}
+        return False
 
     def judge(self, d, out, law, info, ctx=None):
         src, url, place, lt, headed = d['linking_note'], d['url'], d['place'], d['link_type'], d['headed']
@@ -111,17 +142,7 @@ class TitlesHarness(h_lib.LibHarness):
     def replay(self, v, driver):
         d = v['input_tree']
         src = d['linking_note']
-        md_link = {'Regular': '[ORIG](%s)' % d['url'], 'WikiLink': '[[%s]]' % d['url'], 'WikiLinkPiped': '[[%s|ORIG]]' % d['url']}[d['link_type']]
-        body = {'block': md_link, 'inline': 'see ' + md_link, 'emph': 'see *' + md_link + '*'}[d['place']]
-        state = {}
-        for n, title in NOTES.items():
-            if n == src:
-                state[n + '.md'] = '# %s\n\n%s\n' % (title, body)
-            elif d['headed'].get(n, True):
-                state[n + '.md'] = '# %s\n\np\n' % title
-            else:
-                state[n + '.md'] = 'p\n'
-        script = [{'op': 'import', 'state': state}, {'op': 'project', 'key': src}, {'op': 'to_markdown', 'key': src}]
+        script = self.native_script(d)
         res = driver.run(script)
         v['replay_script'], v['replay_result'] = script, res
         if any(isinstance(x, dict) and 'panic' in x for x in res):
